@@ -11,7 +11,7 @@ GLOBAL_ASSUMPTIONS = [
 
 PROPERTIES = {
     "C01": {
-        "units": ["draw_to_term", "bar_draw"],
+        "units": ["draw_to_term", "bar_draw", "pins_bar"],
         "level": "proof",
         "explanation": "draw_to_term verified against the ghost terminal: after a completed draw every cell from the top of the previous frame on shows exactly the lines handed in (text lines, then bars, each wrapped at the terminal width) or is blank, nothing above is touched, the cursor rests in the pending-wrap column of the last row (so later output starts on a fresh line), a cleared frame leaves nothing; BarState::{draw, println, finish_using_style, update_estimate_and_draw, tick, drop} verified to hand draw_to_term exactly [printed texts ++ current rendering] (or nothing once cleared) and to leave terminal, row count and draw state untouched when a draw is skipped.",
         "level_text": "Deductive proof (Verus) for all line lists, widths, heights, previous frames and bar states; the history-level statement follows by induction from the per-call contracts (each call re-establishes the layout precondition of the next).",
@@ -19,7 +19,7 @@ PROPERTIES = {
         "assumptions": ["R2 sequential; R10 one model terminal"],
     },
     "C02": {
-        "units": ["multi_state", "draw_to_term"],
+        "units": ["multi_state", "draw_to_term", "pins_multi"],
         "level": "proof",
         "explanation": "MultiState::{insert, remove_idx, len} verified against the documented list operations (End / Index / IndexFromBack / Before / After; removal keeps the order of the others and touches no other member) under the slot invariant (ordering and free_set duplicate-free, disjoint, covering all slots; the runtime consistency assertion is proved never to fire); MultiState::draw verified to hand draw_to_term exactly [printed lines ++ pending member texts ++ every member's stored rendering once, in visual order] and to reap exactly the maximal prefix of dropped bars after painting them once more; draw_to_term's content clause puts that frame directly below the untouched rows above.",
         "level_text": "Deductive proof (Verus) for every history of insert/remove (the contracts are per operation over the whole order view, with frames) and every member count; loops by inductive invariants.",
@@ -27,7 +27,7 @@ PROPERTIES = {
         "assumptions": ["R2 sequential semantics"],
     },
     "C03": {
-        "units": ["multi_state", "draw_to_term", "bar_draw"],
+        "units": ["multi_state", "draw_to_term", "bar_draw", "pins_bar", "pins_multi"],
         "level": "proof",
         "explanation": "draw_to_term never touches a cell above the top of the rows it is told to clear (frame clause, all three loops); DrawStateWrapper's drop moves Text/Empty lines of a member to the MultiProgress's pending lines in order and keeps the bars; BarState::println hands [texts ++ rendering] to one forced draw; a skipped single-bar draw changes neither terminal nor row count. For MultiState::draw the row accounting (rows to clear vs. rows of reaped zombies) is stated as three count-level clauses, each of which FAILS on the pinned tree and is listed as a known finding with a replayed witness history.",
         "level_text": "Deductive proof (Verus) of the frame / ordering clauses for all inputs; the three failing accounting clauses are reported as KNOWN-FINDING with their real-code witnesses, any other failing obligation is a violation.",
@@ -35,7 +35,7 @@ PROPERTIES = {
         "assumptions": ["R2 sequential semantics"],
     },
     "C04": {
-        "units": ["bar_draw", "c07_position", "multi_state"],
+        "units": ["bar_draw", "c07_position", "multi_state", "pins_bar", "pins_multi"],
         "level": "proof",
         "explanation": "BarState::finish_using_style verified: status finished, position == length for the finish variants and unchanged for the abandon variants, message set when supplied, and one forced draw whose frame is the rendering of the final state (nothing for the clearing variant) reaches draw_to_term regardless of the limiter (drawable grants every forced request on a visible target without touching the limiter); dropping a finished bar performs no draw; dropping an unfinished one finishes it with on_finish.",
         "level_text": "Deductive proof (Verus) over all bar states, limiter states and finish variants.",
@@ -43,7 +43,7 @@ PROPERTIES = {
         "assumptions": ["R2 sequential; Drop::drop extracted as drop_impl (R9)"],
     },
     "C06": {
-        "units": ["bar_draw", "c07_position"],
+        "units": ["bar_draw", "c07_position", "pins_bar"],
         "level": "proof",
         "explanation": "Every draw-path function carries the frame clause 'hidden target => the count of terminal operations is unchanged' (ProgressDrawTarget::drawable returns None for Hidden and for a Term that is not a TTY; a member of a hidden MultiProgress goes through the MultiHandle whose contract keeps the count), and the logical-state postconditions (position, length, message, prefix, finished status) never mention the target, so they are the same for hidden and visible bars.",
         "level_text": "Deductive proof (Verus): silence as a frame condition on every function of the draw path, state equivalence by construction of the contracts.",
@@ -59,7 +59,7 @@ PROPERTIES = {
         "assumptions": ["R2 sequential"],
     },
     "C05": {
-        "units": ["c05_limiters", "pb_glue", "bar_draw"],
+        "units": ["c05_limiters", "pb_glue", "bar_draw", "pins_bar"],
         "level": "proof",
         "explanation": "RateLimiter::{new,allow} and AtomicPosition::allow extracted from /repo/src and verified by Verus against the token-bucket step relation; window (20 + R*T + 1) and staleness bounds proved as lemmas by induction over call traces whose step relation is the conjunction of the code contracts.",
         "level_text": "Deductive proof (Verus/Z3), for every limiter state and request time, that RateLimiter::new/allow and AtomicPosition::allow as they stand in /repo/src satisfy the token-bucket step relation taken from the property text; the frame bound 20 + R*T + 1 and the staleness bound are proved once and for all as lemmas by induction over arbitrary call histories whose step relation is exactly those contracts. No bound on history length, times or counters.",
@@ -86,7 +86,7 @@ PROPERTIES = {
         "assumptions": ["R6: f64 as mathematical reals (no rounding / overflow / NaN)", "frozen monotone clock within one getter call"],
     },
     "C17": {
-        "units": ["c17_adaptors"],
+        "units": ["c17_adaptors", "pins_iter"],
         "level": "proof",
         "explanation": "ProgressBarIter's impls of Iterator, DoubleEndedIterator, io::Read (read, read_vectored, read_to_string, read_exact), io::BufRead (fill_buf, consume), io::Seek (seek, stream_position), io::Write (write, write_vectored, flush), tokio AsyncWrite / AsyncRead / AsyncSeek / AsyncBufRead and futures Stream extracted from src/iter.rs and verified against a model source whose every method has arbitrary behaviour and logs its arguments and result: each wrapper method performs exactly that one inner call and returns its result (and leaves the caller's buffer as the inner call left it), the bar advances by exactly the items / bytes the inner call reports (nothing on errors, on Pending, on fill_buf, flush or position queries), a seek moves the bar to the returned offset, exhaustion finishes an unfinished bar exactly once and leaves a finished one alone.",
         "level_text": "Deductive proof (Verus) for every behaviour of the wrapped object (results are unconstrained: short reads and writes, errors, interleaved fill_buf / consume, any seek) and every bar state.",
@@ -255,6 +255,10 @@ FALLBACK = {
     "c17_adaptors": [("iter_adaptors", ["C17"], "external / reverse / internal iteration (8 modes x 3 lengths, second handle on the bar), Read with 5 chunk scripts x 3 buffer sizes incl. errors, read_exact, read_to_string, interleaved fill_buf / consume, 9 seeks x 2 bar offsets, Write / write_vectored with 4 chunk scripts")],
     "c13_format_bar": [("bar_cells", ["C13"], "{bar:N} geometry for 6 widths x 9 lengths (up to 2^24) x 8 positions on the real f32 code")],
     "c16_tabs": [("tabs_everywhere", ["C16"], "message / prefix / literal tabs after every sequence of 3 operations out of 7 (set_message, set_prefix, set_tab_width x2, set_style x2, finish_with_message) x 2 initial widths; custom keys writing a tab as str, char and format argument")],
+    "pins_bar": [("bar_screen", ["C01", "C03", "C04"], "see bar_draw"), ("bar_forced", ["C04", "C05", "C03", "C01"], "see bar_draw"),
+                 ("bar_frames", ["C05"], "see bar_draw"), ("bar_hidden", ["C06"], "see bar_draw"), ("bar_reuse", ["C04"], "see bar_draw")],
+    "pins_multi": [("multi_order", ["C02"], "see multi_state"), ("multi_finish", ["C04", "C02", "C03"], "see multi_state"), ("multi_logs", ["C03", "C02"], "see multi_state")],
+    "pins_iter": [("iter_adaptors", ["C17"], "see c17_adaptors")],
     "c09_estimator": [("est_laws", ["C09"], "finite / non-negative / bounded / steady-exact / reset-forgets on the real f64 estimator: 5 rates x 6 gap patterns x 40 samples")],
     "c14_style": [("style_build", ["C14"], "builders reject or produce a renderable style (family of tick/progress strings)")],
     "c10_template": [("template_total", ["C10"], "parser totality on generated strings up to length 6 over the grammar alphabet"),
